@@ -168,3 +168,24 @@ claim("C19", "DESIGN.md §2 C19",
       "deleted blob below the excess in whole MB, deleted blobs gone from disk / database / completed set, return value = number deleted.",
       "The class an sd blob of a known stream belongs to is not defined by the statement: its deletion under either excess is a labelled "
       "don't-care; usage accounting is compared in whole MB as the manager reports it.")
+claim("C01", "DESIGN.md §2 C01",
+      "model-based property testing: Hypothesis histories of 1..3(+3) concurrent writers with generated data kinds, chunkings and interleavings (yields, closes, reopen for the same peer, second length announcement) against a hashlib-only model run in lock step",
+      "A case is a history over a real BlobFile / BlobBuffer / BlobManager blob: content sizes around 1, 4096, 65536 (and 1-2 MiB in a second "
+      "part), declared length exact / off by k / 0 / unannounced / >2 MiB, writers each sending correct, flipped, truncated, over-long, "
+      "unrelated, correct-then-extra or empty data in generated chunkings (incl. 1-byte and empty writes), and a schedule of write / yield / "
+      "close (handle or future) / reopen-same-peer / new peer / second length announcement ops. The model (hashlib only) decides after "
+      "every op: verified iff a writer delivered exactly n bytes with the right SHA-384 while writeable; any file named by the hash has "
+      "those bytes; completion callback exactly once iff verified; losers closed; reader returns the content; only correct writers' "
+      "futures get a result.",
+      "Real threads are only the executor's file write (each case gets a fresh loop with a one-thread executor and is drained without "
+      "wall-clock waits); writers opened after the winning write are a don't-care.")
+claim("C02", "DESIGN.md §2 C02",
+      "property-based testing: real stream creation with an independent AES-CBC/PKCS7 decrypt and reference stream/sd hash; ~48 generated tamperings of valid descriptors judged by a reference classifier; generated file names against the sanitiser",
+      "Streams are created with the real StreamDescriptor.create_stream from generated contents/keys/IV sequences (scaled mode with "
+      "MAX_BLOB_SIZE patched to 16..4096, effectiveness of the patch proven per process; enumerated real 2 MiB streams at k*(2MiB-1)+d): every "
+      "blob file hashes to its name, lengths <= max, terminator, numbering, independent decrypt equals the file, sd hash and stream hash equal "
+      "the reference, reload equal. Tamper: a valid descriptor with one of ~48 edits (optionally re-committing the stream hash so structural "
+      "checks are tested alone) stored under its own SHA-384 must be refused whenever the reference says hash mismatch / broken invariant / "
+      "malformed. Names: sanitize_file_name and the ManagedStream getter never return '/', '\\\\', NUL or C0 controls nor an empty name.",
+      "Hash-neutral shifts across the undelimited commitment and re-committed consistent edits are a don't-care; any exception counts as "
+      "'refused' (types recorded).")
